@@ -52,6 +52,14 @@ func argMenu(t reflect.Type) ([]reflect.Value, bool) {
 	case reflect.Slice:
 		if t.Elem().Kind() == reflect.Uint8 {
 			vals := [][]byte{nil, {}, {1}, {4, 'h', 'o', 's', 't'}, {5, 'a'}, make([]byte, 32)}
+			// key- and signature-sized buffers (cap == len) around every field width the library slices by
+			for _, n := range []int{31, 33, 40, 64, 65, 96, 100, 127, 128, 129, 132, 256, 384, 387} {
+				b := make([]byte, n)
+				for i := range b {
+					b[i] = byte(i*7 + 1)
+				}
+				vals = append(vals, b)
+			}
 			out := make([]reflect.Value, 0, len(vals))
 			for _, v := range vals {
 				if v == nil {
@@ -157,9 +165,9 @@ func CallMethods(v any, withArgs bool, skip map[string]bool, visit func(o CallOu
 			unsupported++
 			continue
 		}
-		// cartesian product capped at 64 combinations (menus are tiny; the cap is reported by callers)
+		// cartesian product capped at 400 combinations (menus are tiny; the cap is reported by callers)
 		idx := make([]int, nin)
-		for combos := 0; combos < 64; combos++ {
+		for combos := 0; combos < 400; combos++ {
 			args := make([]reflect.Value, nin)
 			var desc []string
 			for k := range args {
